@@ -54,7 +54,7 @@ impl CheckFileResult {
         };
         self.is_failure()
             && !baseline.is_some_and(|b| {
-                let key = check_result.path().to_string_lossy().replace('\\', "/");
+                let key = crate::output::path::path_key(&check_result.path().to_string_lossy());
                 b.contains(&key)
             })
     }
